@@ -216,7 +216,7 @@ def eval_case(case: dict) -> dict:
             rec(keys + [a], d - 1)
 
     rec(list(prefix), depth)
-    return {"viol": list(viol_best.values()), "nt": n_docs > 1, "evals": n_docs, "cnt": {k: v for k, v in cnt.items() if v},
+    return {"viol": list(viol_best.values()), "nt_n": cnt["multi_page"] + cnt["rejected"], "evals": n_docs, "cnt": {k: v for k, v in cnt.items() if v},
             "states": n_docs, "transitions": max(0, n_docs - 1)}
 
 
@@ -224,7 +224,7 @@ def plan(run):
     quick = run.tier == "quick"
     run.rule = ("all key sequences over {a,b,null}^levels: 1 level length<=7 (thorough 8), 2 levels length<=4 (5), 3 levels length<=3 over {a,null} (quick) / "
                 "{a,b,null} (thorough); each with nrow = 1..n+1 (1 level) or a subset placing breaks at several positions; plus combinations with page_by / "
-                "subline_by on another column. states = documents executed (sequence x nrow); non-trivial = work unit with > 1 document")
+                "subline_by on another column. states = documents executed (sequence x nrow); non-trivial = distinct (sequence, nrow) rendered on >= 2 pages, or rejected as non-contiguous")
     run.assumptions = ["no header/footnote rows are configured, so nrow alone controls where pages start",
                        "null display text is the empty string, so only non-null cells can distinguish blank from shown"]
     cases = []
